@@ -1,6 +1,7 @@
 """C20 — component-based normalisation: data conversions are lossless, ML steps descend."""
 import os
 import vlib
+import gen_gate
 
 PROP = "C20"
 U24 = 2.0 ** -24
@@ -53,6 +54,9 @@ def main(tier, replay):
                 tier = l.split("tier=")[1].split()[0]
     chk = vlib.Check(PROP, tier, level="proof")
     audit = vlib.lean_gate(chk, PROP)
+    # tie (T): storage keys, membership tests and allocated index ranges of FanProjData / GeoData3D / DetPairData are re-translated
+    # from ML_norm.cxx and proved equal to the model's storeKey / isInData / minB / maxB / loRb / maxRb (Gen/Bridges.lean)
+    tie_t = gen_gate.gate(chk, kernels=gen_gate.ML_KERNELS)
     stats = vlib.run_differential(chk, PROP, "c20_mlnorm", tier, compare=compare, ctx_prefixes=("cfg", "dpcfg"))
     info = {}
     of = os.path.join(vlib.OUT, "c20_%s.impl.oracle" % tier)
@@ -97,6 +101,7 @@ def main(tier, replay):
         "Two seed-independent minimal cases are evaluated on every run: the geometric fixed point on 5 rings (regression case of the repaired "
         "make_geo_data condition, strict) and the known finding kl-descent:library-KL-counts-in-ring-LORs-twice.",
         extra=dict(input_distribution=info))
+    chk.coverage["tie_T_translator"] = tie_t
     chk.assumptions += ["the detector-pair <-> bin map is a parameter of the Lean model (property C01); the harness takes it from the real get_det_pos_pair_for_bin / get_det_num_pair_for_view_tangential_pos_num",
                         "float arithmetic is modelled exactly in Rat (binary64 for the in-place efficiency sweeps on more than 9 / 8 detectors and for log) and compared with a derived forward bound",
                         "find_max() is modelled for non-negative data; 32-bit overflow not modelled",
